@@ -63,6 +63,15 @@ def names_of(k, ec):
     return [f"lon{k}", f"lat{k}"]
 
 
+def other_angle_units(lon, lat, k):
+    """the same angles, for some table positions stored in other units than the frame's default degrees"""
+    if k % 3 == 1:
+        return lon.to(u.hourangle), lat.to(u.rad)
+    if k % 3 == 2:
+        return lon.to(u.arcsec), lat.to(u.arcmin)
+    return lon, lat
+
+
 def sky_types(k):
     """custom physical types for every second SkyCoord table (the others keep the frame's defaults)"""
     return {"physical_types": (f"custom:pos.slit.lon{k}", f"custom:pos.slit.lat{k}")} if k % 2 == 1 else {}
@@ -96,7 +105,7 @@ def add_ecs(cube, ecs, shape, voff=0.0, ishift=None):
             # (Time tables in the usual scales, by table position: instants matter, not clock readings)
             cube.extra_coords.add(nm[0], axes[0], Time(T0.isot, scale=["utc", "tai", "tt"][k % 3]) + v * u.min)
         elif kind == "sky1":
-            cube.extra_coords.add(tuple(nm), axes[0], SkyCoord(v * u.deg / 10, (v / 2 - 5) * u.deg / 10, frame="icrs"), mesh=False,
+            cube.extra_coords.add(tuple(nm), axes[0], SkyCoord(*other_angle_units(v * u.deg / 10, (v / 2 - 5) * u.deg / 10, k), frame="icrs"), mesh=False,
                                   **sky_types(k))
         elif kind == "quantity2":
             n1 = shape[axes[1]]
@@ -113,12 +122,12 @@ def add_ecs(cube, ecs, shape, voff=0.0, ishift=None):
         elif kind == "sky2d":
             n1 = shape[axes[1]]
             ii, jj = np.meshgrid(np.arange(n, dtype=float), np.arange(n1, dtype=float), indexing="ij")
-            cube.extra_coords.add(tuple(nm), tuple(axes), SkyCoord((ii * 7 + jj + k) * u.deg / 10, (ii - 2 * jj) * u.deg / 10, frame="icrs"), mesh=False,
+            cube.extra_coords.add(tuple(nm), tuple(axes), SkyCoord(*other_angle_units((ii * 7 + jj + k) * u.deg / 10, (ii - 2 * jj) * u.deg / 10, k), frame="icrs"), mesh=False,
                                   **sky_types(k))
         elif kind == "sky2mesh":
             lon = (np.arange(n, dtype=float) * 3 + k) * u.deg / 10
             lat = (np.arange(n, dtype=float) ** 2 - 4) * u.deg / 10
-            cube.extra_coords.add(tuple(nm), tuple(axes), SkyCoord(lon, lat, frame="icrs"), mesh=True, **sky_types(k))
+            cube.extra_coords.add(tuple(nm), tuple(axes), SkyCoord(*other_angle_units(lon, lat, k), frame="icrs"), mesh=True, **sky_types(k))
     return cube
 
 
